@@ -1057,13 +1057,13 @@ class VM:
             return obj.get(key_str)
 
         if isinstance(obj, JSTypedArray):
-            # Typed array index access
-            try:
-                idx = int(key_str)
-                if idx >= 0:
-                    return obj.get_index(idx)
-            except ValueError:
-                pass
+            # Typed array index access: every canonical numeric key is an element index
+            # (elements outside the array, negative or fractional ones, do not exist)
+            index = self._canonical_numeric_index(key_str)
+            if index is not None:
+                if isinstance(index, int) and index >= 0:
+                    return obj.get_index(index)
+                return UNDEFINED
             if key_str == "length":
                 return obj.length
             if key_str == "BYTES_PER_ELEMENT":
@@ -1254,89 +1254,90 @@ class VM:
                 return ""
             return to_string(elem)
 
+        def arg(args, i):
+            return args[i] if len(args) > i else UNDEFINED
+
         def toString_fn(*args):
             return ",".join(array_elem_to_string(elem) for elem in arr._elements)
 
         def join_fn(*args):
-            sep = "," if not args else to_string(args[0])
+            sep = "," if arg(args, 0) is UNDEFINED else to_string(args[0])
             return sep.join(array_elem_to_string(elem) for elem in arr._elements)
 
-        def map_fn(*args):
-            callback = args[0] if args else None
-            if not callback:
-                return JSArray()
+        def callback_of(args, what):
+            callback = arg(args, 0)
+            if not (isinstance(callback, JSFunction) or callable(callback)):
+                raise JSTypeError(f"{what} callback is not a function")
+            return callback
+
+        def each(args, what, skip_removed=True):
+            """Visit the elements the way the callback-taking methods do: indexes below the
+            initial length, reading each element when its turn comes.  An index removed
+            meanwhile is skipped, or (find/findIndex) visited as undefined."""
+            callback = callback_of(args, what)
+            this_arg = arg(args, 1)
+            for i in range(len(arr._elements)):
+                if i >= len(arr._elements):
+                    if skip_removed:
+                        continue
+                    elem = UNDEFINED
+                else:
+                    elem = arr._elements[i]
+                yield i, elem, vm._call_callback(callback, [elem, i, arr], this_arg)
+
+        def new_array(elements):
             result = JSArray()
-            result._elements = []
-            for i, elem in enumerate(arr._elements):
-                val = vm._call_callback(callback, [elem, i, arr])
-                result._elements.append(val)
+            result._prototype = arr._prototype
+            result._elements = elements
             return result
+
+        def map_fn(*args):
+            # The result has the receiver's initial length whatever the callback does
+            results = [UNDEFINED] * len(arr._elements)
+            for i, _, val in each(args, "map"):
+                results[i] = val
+            return new_array(results)
 
         def filter_fn(*args):
-            callback = args[0] if args else None
-            if not callback:
-                return JSArray()
-            result = JSArray()
-            result._elements = []
-            for i, elem in enumerate(arr._elements):
-                val = vm._call_callback(callback, [elem, i, arr])
-                if to_boolean(val):
-                    result._elements.append(elem)
-            return result
+            return new_array(
+                [elem for _, elem, val in each(args, "filter") if to_boolean(val)]
+            )
+
+        def reduce_impl(args, what, indexes):
+            callback = callback_of(args, what)
+            indexes = list(indexes)
+            if len(args) > 1:
+                acc = args[1]
+            else:
+                if not indexes:
+                    raise JSTypeError("Reduce of empty array with no initial value")
+                acc = arr._elements[indexes.pop(0)]
+            for i in indexes:
+                if i < len(arr._elements):
+                    acc = vm._call_callback(callback, [acc, arr._elements[i], i, arr])
+            return acc
 
         def reduce_fn(*args):
-            callback = args[0] if args else None
-            initial = args[1] if len(args) > 1 else UNDEFINED
-            if not callback:
-                raise JSTypeError("reduce callback is not a function")
-            acc = initial
-            start_idx = 0
-            if acc is UNDEFINED:
-                if not arr._elements:
-                    raise JSTypeError("Reduce of empty array with no initial value")
-                acc = arr._elements[0]
-                start_idx = 1
-            for i in range(start_idx, len(arr._elements)):
-                elem = arr._elements[i]
-                acc = vm._call_callback(callback, [acc, elem, i, arr])
-            return acc
+            return reduce_impl(args, "reduce", range(len(arr._elements)))
 
         def reduceRight_fn(*args):
-            callback = args[0] if args else None
-            initial = args[1] if len(args) > 1 else UNDEFINED
-            if not callback:
-                raise JSTypeError("reduceRight callback is not a function")
-            acc = initial
-            length = len(arr._elements)
-            start_idx = length - 1
-            if acc is UNDEFINED:
-                if not arr._elements:
-                    raise JSTypeError("Reduce of empty array with no initial value")
-                acc = arr._elements[length - 1]
-                start_idx = length - 2
-            for i in range(start_idx, -1, -1):
-                elem = arr._elements[i]
-                acc = vm._call_callback(callback, [acc, elem, i, arr])
-            return acc
+            return reduce_impl(
+                args, "reduceRight", range(len(arr._elements) - 1, -1, -1)
+            )
 
         def splice_fn(*args):
-            start = int(to_number(args[0])) if args else 0
-            delete_count = (
-                int(to_number(args[1])) if len(args) > 1 else len(arr._elements) - start
-            )
-            items = list(args[2:]) if len(args) > 2 else []
-
             length = len(arr._elements)
-            if start < 0:
-                start = max(0, length + start)
+            start = relative_index(arg(args, 0), length, 0)
+            if not args:
+                delete_count = 0
+            elif len(args) == 1:
+                delete_count = length - start
             else:
-                start = min(start, length)
-
-            delete_count = max(0, min(delete_count, length - start))
+                delete_count = int(min(max(to_integer(args[1]), 0), length - start))
+            items = list(args[2:])
 
             # Create result array with deleted elements
-            result = JSArray()
-            result._elements = arr._elements[start : start + delete_count]
+            result = new_array(arr._elements[start : start + delete_count])
 
             # Modify original array
             arr._elements = (
@@ -1346,110 +1347,105 @@ class VM:
             return result
 
         def forEach_fn(*args):
-            callback = args[0] if args else None
-            if not callback:
-                return UNDEFINED
-            for i, elem in enumerate(arr._elements):
-                vm._call_callback(callback, [elem, i, arr])
+            for _ in each(args, "forEach"):
+                pass
             return UNDEFINED
 
+        def search_start(args):
+            """fromIndex of indexOf/includes: None if it is past the end."""
+            length = len(arr._elements)
+            n = to_integer(arg(args, 1))
+            if n >= length:
+                return None
+            return int(n) if n >= 0 else int(max(length + n, 0))
+
         def indexOf_fn(*args):
-            search = args[0] if args else UNDEFINED
-            start = int(to_number(args[1])) if len(args) > 1 else 0
-            if start < 0:
-                start = max(0, len(arr._elements) + start)
+            search = arg(args, 0)
+            start = search_start(args)
+            if start is None:
+                return -1
             for i in range(start, len(arr._elements)):
                 if vm._strict_equals(arr._elements[i], search):
                     return i
             return -1
 
         def lastIndexOf_fn(*args):
-            search = args[0] if args else UNDEFINED
-            start = int(to_number(args[1])) if len(args) > 1 else len(arr._elements) - 1
-            if start < 0:
-                start = len(arr._elements) + start
-            for i in range(min(start, len(arr._elements) - 1), -1, -1):
+            search = arg(args, 0)
+            length = len(arr._elements)
+            n = to_integer(args[1]) if len(args) > 1 else length - 1
+            start = min(n, length - 1) if n >= 0 else length + n
+            if start == float("-inf"):
+                return -1
+            for i in range(int(start), -1, -1):
                 if vm._strict_equals(arr._elements[i], search):
                     return i
             return -1
 
         def find_fn(*args):
-            callback = args[0] if args else None
-            if not callback:
-                return UNDEFINED
-            for i, elem in enumerate(arr._elements):
-                val = vm._call_callback(callback, [elem, i, arr])
+            for _, elem, val in each(args, "find", skip_removed=False):
                 if to_boolean(val):
                     return elem
             return UNDEFINED
 
         def findIndex_fn(*args):
-            callback = args[0] if args else None
-            if not callback:
-                return -1
-            for i, elem in enumerate(arr._elements):
-                val = vm._call_callback(callback, [elem, i, arr])
+            for i, _, val in each(args, "findIndex", skip_removed=False):
                 if to_boolean(val):
                     return i
             return -1
 
         def some_fn(*args):
-            callback = args[0] if args else None
-            if not callback:
-                return False
-            for i, elem in enumerate(arr._elements):
-                val = vm._call_callback(callback, [elem, i, arr])
+            for _, _, val in each(args, "some"):
                 if to_boolean(val):
                     return True
             return False
 
         def every_fn(*args):
-            callback = args[0] if args else None
-            if not callback:
-                return True
-            for i, elem in enumerate(arr._elements):
-                val = vm._call_callback(callback, [elem, i, arr])
+            for _, _, val in each(args, "every"):
                 if not to_boolean(val):
                     return False
             return True
 
         def concat_fn(*args):
-            result = JSArray()
-            result._elements = arr._elements[:]
-            for arg in args:
-                if isinstance(arg, JSArray):
-                    result._elements.extend(arg._elements)
+            elements = arr._elements[:]
+            for item in args:
+                if isinstance(item, JSArray):
+                    elements.extend(item._elements)
                 else:
-                    result._elements.append(arg)
-            return result
+                    elements.append(item)
+            return new_array(elements)
 
         def slice_fn(*args):
-            start = int(to_number(args[0])) if args else 0
-            end = int(to_number(args[1])) if len(args) > 1 else len(arr._elements)
-            if start < 0:
-                start = max(0, len(arr._elements) + start)
-            if end < 0:
-                end = max(0, len(arr._elements) + end)
-            result = JSArray()
-            result._elements = arr._elements[start:end]
-            return result
+            length = len(arr._elements)
+            start = relative_index(arg(args, 0), length, 0)
+            end = relative_index(arg(args, 1), length, length)
+            return new_array(arr._elements[start:end])
 
         def reverse_fn(*args):
             arr._elements.reverse()
             return arr
 
         def includes_fn(*args):
-            search = args[0] if args else UNDEFINED
-            start = int(to_number(args[1])) if len(args) > 1 else 0
-            if start < 0:
-                start = max(0, len(arr._elements) + start)
+            search = arg(args, 0)
+            start = search_start(args)
+            if start is None:
+                return False
+            search_is_nan = isinstance(search, float) and math.isnan(search)
             for i in range(start, len(arr._elements)):
-                if vm._strict_equals(arr._elements[i], search):
+                elem = arr._elements[i]
+                if vm._strict_equals(elem, search):
                     return True
+                if search_is_nan and isinstance(elem, float) and math.isnan(elem):
+                    return True  # SameValueZero: NaN is found
             return False
 
         def sort_fn(*args):
-            comparator = args[0] if args else None
+            comparator = arg(args, 0)
+            if comparator is not UNDEFINED and not (
+                isinstance(comparator, JSFunction) or callable(comparator)
+            ):
+                raise JSTypeError(
+                    "The comparison function must be either a function or undefined"
+                )
 
             # Default string comparison
             def default_compare(a, b):
@@ -1471,19 +1467,20 @@ class VM:
                 if b is UNDEFINED:
                     return -1
                 # Use comparator if provided
-                if comparator and (
-                    callable(comparator) or isinstance(comparator, JSFunction)
-                ):
-                    result = vm._call_callback(comparator, [a, b])
-                    # Convert to integer for cmp_to_key
-                    num = to_number(result) if result is not UNDEFINED else 0
-                    return int(num) if isinstance(num, (int, float)) else 0
+                if comparator is not UNDEFINED:
+                    num = to_number(vm._call_callback(comparator, [a, b]))
+                    # Only the sign matters; NaN counts as "equal"
+                    if num < 0:
+                        return -1
+                    return 1 if num > 0 else 0
                 return default_compare(a, b)
 
             # Sort using Python's sort with custom key
             from functools import cmp_to_key
 
-            arr._elements.sort(key=cmp_to_key(compare_fn))
+            elements = arr._elements[:]
+            elements.sort(key=cmp_to_key(compare_fn))
+            arr._elements = elements
             return arr
 
         methods = {
@@ -1694,39 +1691,40 @@ class VM:
 
         def toString_fn(*args):
             # Join elements with comma
-            return ",".join(str(arr.get_index(i)) for i in range(arr.length))
+            return ",".join(to_string(arr.get_index(i)) for i in range(arr.length))
 
         def join_fn(*args):
-            separator = to_string(args[0]) if args else ","
-            return separator.join(str(arr.get_index(i)) for i in range(arr.length))
+            separator = "," if not args or args[0] is UNDEFINED else to_string(args[0])
+            return separator.join(
+                to_string(arr.get_index(i)) for i in range(arr.length)
+            )
 
         def subarray_fn(*args):
-            begin = int(to_number(args[0])) if len(args) > 0 else 0
-            end = int(to_number(args[1])) if len(args) > 1 else arr.length
+            begin = relative_index(args[0] if args else UNDEFINED, arr.length, 0)
+            end = relative_index(
+                args[1] if len(args) > 1 else UNDEFINED, arr.length, arr.length
+            )
 
-            # Handle negative indices
-            if begin < 0:
-                begin = max(0, arr.length + begin)
-            if end < 0:
-                end = max(0, arr.length + end)
-
-            # Clamp to bounds
-            begin = min(begin, arr.length)
-            end = min(end, arr.length)
-
-            # Create new typed array of same type
+            # A subarray is a view on the same bytes: give the receiver a buffer if it
+            # does not have one yet, and point the result into it
+            if arr._buffer is None:
+                buffer = JSArrayBuffer(arr.length * arr._element_size)
+                values = list(arr._data)
+                arr._buffer = buffer
+                for i, value in enumerate(values):
+                    arr._write_to_buffer(i, value)
             result = type(arr)(max(0, end - begin))
-            for i in range(begin, end):
-                result.set_index(i - begin, arr.get_index(i))
-            # Share the same buffer if the original has one
-            if hasattr(arr, "_buffer"):
-                result._buffer = arr._buffer
+            result._buffer = arr._buffer
+            result._byte_offset = arr._byte_offset + begin * arr._element_size
             return result
 
         def set_fn(*args):
             # TypedArray.set(array, offset)
             source = args[0] if args else UNDEFINED
-            offset = int(to_number(args[1])) if len(args) > 1 else 0
+            offset = to_integer(args[1]) if len(args) > 1 else 0
+            if offset < 0 or offset + getattr(source, "length", 0) > arr.length:
+                raise JSRangeError("offset is out of bounds")
+            offset = int(offset)
 
             if isinstance(source, (JSArray, JSTypedArray)):
                 for i in range(source.length):
@@ -2244,13 +2242,12 @@ class VM:
         key_str = to_string(key) if not isinstance(key, str) else key
 
         if isinstance(obj, JSTypedArray):
-            try:
-                idx = int(key_str)
-                if idx >= 0:
-                    obj.set_index(idx, value)
-                    return
-            except ValueError:
-                pass
+            index = self._canonical_numeric_index(key_str)
+            if index is not None:
+                # Writes to elements that do not exist are ignored
+                if isinstance(index, int) and index >= 0:
+                    obj.set_index(index, value)
+                return
             obj.set(key_str, value)
             return
 
@@ -2293,6 +2290,19 @@ class VM:
                 self._invoke_setter(setter, obj, value)
             else:
                 obj.set(key_str, value)
+
+    @staticmethod
+    def _canonical_numeric_index(key: str):
+        """If key is the canonical string of a number ("2", "-1", "1.5", "NaN"...), that
+        number (an int when it is a non-negative-zero integer); else None."""
+        if key == "-0":
+            return -0.0
+        n = to_number(key)
+        if to_string(n) != key:
+            return None
+        if isinstance(n, float) and n.is_integer():
+            return int(n)
+        return n
 
     def _delete_property(self, obj: JSValue, key: JSValue) -> bool:
         """Delete property from object."""
